@@ -343,3 +343,45 @@ def run_xy(case):
 
 
 PARTS = [Part("xy", strategy=lambda tier: xylab.cases(tier), run=run_xy, quick=960, thorough=24000)]
+
+
+# ------------------------------------------------------------------------------------------------
+# Candidate finding (not in known_findings.json at the time of writing; the probe is wired under a
+# provisional id so that it can be listed there as status "known").
+#
+# Sentence of the property: "steps occur only on dates present in the price table that are not
+# exchange holidays", quantified over "daily (or finer)" tables. TradingEnvXY._make_timesteps drops
+# `[t for t in holidays if t in Y.index]`, i.e. only rows stamped exactly at midnight of a holiday; a
+# 12-hourly price table gets a step at 2019-12-25 12:00 (NYSE) while the 2019-12-25 00:00 row is dropped.
+# The generator produces such tables (intraday rows, calendar-daily shape); those cases are counted in
+# `excluded` and the holiday rule is applied to their midnight rows only.
+
+def probe_intraday_holiday():
+    from tradingenv.env import TradingEnvXY
+    idx = pd.date_range("2019-12-20", periods=24, freq="12h")
+    Y = pd.DataFrame({"A": 100.0 + np.arange(24.0)}, index=idx)
+    X = pd.DataFrame({"f0": np.arange(24.0) / 8}, index=idx)
+    env = TradingEnvXY(X, Y, transformer=None, window=1, spread=0.0, calendar="NYSE", steps_delay=0)
+    hol = xylab.holidays("NYSE")
+    env.reset()
+    hit, done = [], False
+    while True:
+        now = env.now()
+        if now.date() in hol:
+            hit.append(str(now))
+        if done:
+            break
+        done = env.step(np.zeros(1))[2]
+    if hit:
+        return "12-hourly price table, NYSE calendar: steps taken on holiday dates %s" % hit
+    return None
+
+
+FINDING_PROBES = {"C18-intraday-holiday": probe_intraday_holiday}
+
+# Side observation (outside the statement of C18, avoided by construction in xylab.cases): when fewer
+# than three price rows are dated at or before `transformer_end` (e.g. features with a longer history
+# than prices and a transformer fitted on the early part), the constructor fails with
+# "AttributeError: 'float' object has no attribute 'item'" (env.py, reward scale: std of < 2 returns is NaN,
+# Series.mean() of all-NaN is a Python float).  Minimal: Y daily from 2019-01-01, X daily from 2018-12-22,
+# TradingEnvXY(X, Y, transformer='z-score', transformer_end='2019-01-02').
